@@ -202,13 +202,17 @@ func (d *Decoder) readClassDef() (interface{}, error) {
 		return nil, newCodecError("ReadClassDef", err)
 	}
 
-	fields := make([]string, count)
+	if count < 0 {
+		return nil, newCodecError("ReadClassDef", "negative field count %d", count)
+	}
+	// the declared count is not trusted for allocation: grow as names arrive
+	fields := make([]string, 0, minInt(int(count), _maxPrealloc))
 	for i := 0; i < int(count); i++ {
 		s, err := d.readString(_tagRead)
 		if err != nil {
 			return nil, newCodecError("ReadClassDef", err)
 		}
-		fields[i] = s
+		fields = append(fields, s)
 	}
 	cls := ClassDef{clsName, fields}
 	return cls, nil
